@@ -21,6 +21,11 @@ def netOp : List String → Option String
     | some n => pure s!"ok {n}"
     | none => pure "err invalid_argument"
   | ["addr", h] => do pure (addrOut (← fromHex h))
+  | ["addrhp", h, p] => do
+    -- Address(host, Port): the text "host:port" is parsed as a whole
+    let host ← fromHex h
+    let port ← p.toNat?
+    pure (addrOut (host ++ [58] ++ Num.natToDec port))
   | ["addrp", h] => do
     let s ← fromHex h
     match addressParser s with
